@@ -27,7 +27,8 @@ RULE = (
     'step: values, statuses and iterations equal the twin\'s; model[alias] is model[canonical]; the set of array-valued '
     '__dict__ entries equals the twin\'s (no extra storage). to_dataframe(use_aliases=True) is a one-to-one renaming of '
     'the plain export (each new name the canonical name or one of its aliases, the declared preferred name where one '
-    'exists), data identical column by column; ambiguous preferences raise ValueError. Construction runs under a '
+    'exists), data identical column by column; ambiguous preferences raise ValueError - at construction, and at export '
+    'when the instance-level preferred_names list was reassigned or edited in place afterwards. Construction runs under a '
     'watchdog and a 2*10^5 line-event budget. Non-trivial: the map has a chain or a many-to-one group and the history '
     'writes through an alias. Distinct = distinct case JSON.'
 )
@@ -242,16 +243,37 @@ def check_case(case):
     arrays_t = sorted(k for k, v in twin.__dict__.items() if isinstance(v, np.ndarray))
     if arrays_m != arrays_t:
         res.fail('storage/extra-arrays', f'{detail}: array entries {arrays_m}, twin {arrays_t}')
-    # export
+    # export (optionally after the documented instance-level copy `preferred_names` was changed)
+    pa = case.get('preferred_after')
+    if pa is not None:
+        how, names_after = pa
+        if how == 'assign':
+            m.preferred_names = list(names_after)
+        else:
+            m.preferred_names[:] = list(names_after)
+        preferred = list(names_after)
+        targets = [resolve(amap, x) for x in preferred]
+        ambiguous = len(set(targets)) != len(targets)
+        detail += f' preferred_names set to {preferred} ({how})'
+        res.tag('preferred-names-changed-on-instance' + ('/ambiguous' if ambiguous else ''))
     plain = attempt(m.to_dataframe)
     renamed = attempt(lambda: m.to_dataframe(use_aliases=True))
     if not plain.ok:
         res.fail(f'export/plain-raised-{plain.exc_name}', f'{detail}: {plain!r}')
         return res
-    if ambiguous:
+    if ambiguous and pa is None:
         if renamed.ok or not isinstance(renamed.exc, ValueError):
             res.fail('export/ambiguous-preferences-accepted', f'{detail}: {renamed!r}')
         return res
+    if ambiguous:
+        # the statement promises rejection for PREFERRED_NAMES (checked at construction); for a list edited on the instance
+        # afterwards only: the export raises ValueError or is still a pure renaming (checked below, without the
+        # preferred-name clause)
+        if not renamed.ok:
+            if not isinstance(renamed.exc, ValueError):
+                res.fail(f'export/raised-{renamed.exc_name}/ambiguous-instance-list', f'{detail}: {renamed!r}')
+            return res
+        preferred = []
     if not renamed.ok:
         res.fail(f'export/raised-{renamed.exc_name}', f'{detail}: {renamed!r}')
         return res
@@ -308,8 +330,14 @@ def gen_maps(max_entries):
                 prefs.append([keys[-1], 'B'])
                 if len(keys) > 1:
                     prefs.append(keys[:2])
-            yield {'aliases': amap, 'preferred': prefs[i % len(prefs)], 'n': 4, 'labels': 'alias-names' if i % 3 == 1 else 'int',
-                   'init': [[0, 1, [1.0, 2.0, 3.0, 4.0]]] if i % 2 else [], 'ops': BASIC_OPS[i % 3:] + BASIC_OPS[:i % 3]}
+            case = {'aliases': amap, 'preferred': prefs[i % len(prefs)], 'n': 4, 'labels': 'alias-names' if i % 3 == 1 else 'int',
+                    'init': [[0, 1, [1.0, 2.0, 3.0, 4.0]]] if i % 2 else [], 'ops': BASIC_OPS[i % 3:] + BASIC_OPS[:i % 3]}
+            yield case
+            if len(keys) >= 2 and i % 4 == 0:
+                # the instance-level list is edited after construction: all names of the map at once (ambiguous when two
+                # of them share a variable), then a single one
+                yield dict(case, ops=[], preferred_after=['in-place' if i % 8 else 'assign', keys])
+                yield dict(case, ops=[], preferred_after=['assign', [keys[-1]]])
     return gen
 
 
@@ -351,8 +379,12 @@ def strategy():
             st.tuples(st.just('solve'), st.sampled_from([1, 5, 40])).map(list),
         )
         init = draw(st.lists(st.tuples(vi, via, st.lists(scal, min_size=n, max_size=n)).map(list), max_size=2, unique_by=lambda x: x[0] % 4))
-        return {'aliases': [list(x) for x in amap], 'preferred': preferred, 'n': n, 'init': init,
+        case = {'aliases': [list(x) for x in amap], 'preferred': preferred, 'n': n, 'init': init,
                 'labels': draw(st.sampled_from(['int', 'int', 'alias-names'])), 'ops': draw(st.lists(op, max_size=10))}
+        if draw(st.integers(0, 2)) == 0:
+            case['preferred_after'] = [draw(st.sampled_from(['assign', 'in-place'])),
+                                       draw(st.lists(st.sampled_from(names), max_size=4, unique=True))]
+        return case
     return cases()
 
 
